@@ -140,6 +140,32 @@ func storeKindOf(w *World) (*storeKind, error) {
 	return k, nil
 }
 
+// segmentSearchFn: the routine that searches one segment — a goroutine body started by Execute (closure or method of the
+// search object) that loads the segment's index.
+func segmentSearchFn(w *World, k *storeKind) *ssa.Function {
+	var seg *ssa.Function
+	loads := func(fn *ssa.Function) bool {
+		return len(callsIn(fn, func(cc *ssa.CallCommon) bool { return staticCallee(cc) == k.GetIndex })) > 0
+	}
+	for _, fn := range w.Funcs {
+		if fn.Parent() == k.Execute && loads(fn) {
+			seg = fn
+		}
+	}
+	if seg != nil {
+		return seg
+	}
+	// go s.searchSegment(seg, …)
+	allInstrs(k.Execute, func(in ssa.Instruction) {
+		if g, ok := in.(*ssa.Go); ok {
+			if fn := staticCallee(g.Common()); fn != nil && fn.Pkg == w.SPkg && loads(fn) {
+				seg = fn
+			}
+		}
+	})
+	return seg
+}
+
 // templateOrigin traces an index-typed value back to a template field (StorageConfig.*IndexTemplate, memtableQueue.*Template)
 // through parameters (to every static call site, depth-limited) and phis. It returns a description when a template is
 // reached without passing through a producer call (anything that is not a plain field load / parameter).
@@ -263,7 +289,7 @@ func ruleFlushOrdering(r *Run, rule string, k *storeKind) {
 		return
 	}
 	for _, rm := range removes {
-		sameMt := c.S(rm.Call.Args[1]) == c.S(flushCall.Call.Args[1])
+		sameMt := c.S(rm.Call.Args[1]) == c.S(effArgs(flushCall.Common())[1])
 		// reached only through the success branch of the flush
 		okBranch := false
 		for _, ref := range *flushCall.Referrers() {
@@ -447,7 +473,7 @@ func ruleCompactOrdering(r *Run, p string, k *storeKind) {
 		via ssa.Instruction
 		in  ssa.Instruction
 	}
-	var write, add, rem, del []step
+	var write, add, rem, del, ownCleanup []step
 	var getIdx []*ssa.Call
 	var collect func(g *ssa.Function, via ssa.Instruction)
 	collect = func(g *ssa.Function, via ssa.Instruction) {
@@ -466,7 +492,13 @@ func ruleCompactOrdering(r *Run, p string, k *storeKind) {
 			case strings.HasSuffix(n, "(*"+cometPath+".segmentManager).remove"):
 				rem = append(rem, step{via, in})
 			case strings.HasSuffix(n, ".deleteSegment"):
-				del = append(del, step{via, in})
+				// removing the files of the segment being written (the freshly allocated id) on a path that never
+				// registers it is cleanup of own output, not a deletion of flushed data
+				if cv := NewCanon(w); len(call.Call.Args) > 1 && strings.Contains(cv.S(call.Call.Args[1]), "nextSegmentID(") {
+					ownCleanup = append(ownCleanup, step{via, in})
+				} else {
+					del = append(del, step{via, in})
+				}
 			case callee == k.GetIndex:
 				if via == nil {
 					getIdx = append(getIdx, call)
@@ -510,6 +542,18 @@ func ruleCompactOrdering(r *Run, p string, k *storeKind) {
 				}
 			}
 			ok = ok && okRem
+		}
+		// own-output cleanup never follows the registration of that output
+		for _, x := range ownCleanup {
+			if len(add) == 1 {
+				if a := add[0]; x.via == nil && a.via == nil {
+					if reachAvoid(fn, a.in, func(in ssa.Instruction) bool { return in == x.in }, func(ssa.Instruction) bool { return false }) != nil {
+						ok = false
+					}
+				} else {
+					ok = false
+				}
+			}
 		}
 		r.Check(ok, p+".SEQ.compact", "compact:order", site, "write merged segment ≺ register it ≺ unregister inputs ≺ delete input files", "compaction steps are not ordered write ≺ register ≺ unregister ≺ delete")
 		// the write's error is checked before registration
